@@ -230,3 +230,19 @@ Theorem C05_bare_provider_assertion_refused : forall e c rg p g pl pv,
   success (model (mkInput RLegacy e c rg p g pl pv)) = false.
 Proof. exact bare_provider_assertion_refused. Qed.
 Print Assumptions C05_bare_provider_assertion_refused.
+
+(* Round 7. [c_sub c]: the JWT profile verifier the provider hands out was built with a custom
+   op.SubjectCheck that lets iss <> sub pass. [PXSub v]: a client assertion issued and signed by X
+   whose subject is a second registered client Y (registration v), Y owning the artefact. The client
+   that authenticates is the one whose key signed: the answer never acts for Y ... *)
+Theorem C05_subject_never_acted_for : forall r e c rg v g pl pv s ec tok act w,
+  model (mkInput r e c rg (PXSub v) g pl pv) = ORes s ec tok act w -> w <> WOther.
+Proof. exact subject_never_acted_for. Qed.
+Print Assumptions C05_subject_never_acted_for.
+
+(* ... and under the default SubjectIsIssuer check such an assertion authenticates nobody. *)
+Theorem C05_subject_default_refused : forall r e c rg v g pl pv,
+  c_sub c = false -> (e = EToken -> g <> GBearer) ->
+  success (model (mkInput r e c rg (PXSub v) g pl pv)) = false.
+Proof. exact subject_default_refused. Qed.
+Print Assumptions C05_subject_default_refused.
